@@ -48,13 +48,18 @@ CHECKS.update({
             'loop-less pipelines (reference-count driven collection is deterministic); slice and loop-requiring nodes are not edit targets; combine_latest edited without explicit emit_on'),
 })
 
+CHECKS.update({
+    'C19': ('exploration', 'sequences of constructors (Stream, plain nodes, loop-requiring nodes, sinks, all file/iterable/periodic sources) in every order over several independent pipelines, each given asynchronous in {None, True, False} and loop in {None, caller\'s, another} where accepted, on a running simulated caller loop with a second explicit loop and a recorded (not started) background thread: a request that conflicts with the pipeline\'s binding must raise ValueError, a request that does not must not; all nodes of a pipeline share one loop object and one effective mode; a node declared asynchronous is bound to the caller\'s current loop, starts no thread, and when data flows every user callback runs on that loop and nothing is scheduled elsewhere; loop-needing nodes with nothing given use one shared background loop (exactly one thread start in total)', '4 (C19)',
+            'chains only; effective mode compared as bool(asynchronous); state after a refused constructor not inspected'),
+})
+
 NOT_APPLICABLE = {
     'C06': 'pure function of the batch sequence and the expression tree: no schedule, clock, I/O, peer or fault occurs in the statement or the anchored code, so simulation would only be input generation in disguise (DESIGN 5)',
     'C07': 'same as C06: window(value=T) reads timestamps from the data index, never a clock (DESIGN 5)',
     'C11': 'same as C06: the split into batches is an input, not a schedule (DESIGN 5)',
 }
 
-PENDING = {k: 'check under construction in this session (will be claimed once built)' for k in ['C12', 'C19', 'C20']}
+PENDING = {k: 'check under construction in this session (will be claimed once built)' for k in ['C12', 'C20']}
 
 
 def main():
